@@ -1120,47 +1120,75 @@ func (c1 complexConst) binaryOp(op ast.OperatorType, c2 constant) (constant, err
 		eq := re.(boolConst) && im.(boolConst)
 		return boolConst(eq == (op == ast.OperatorEqual)), nil
 	case ast.OperatorAddition, ast.OperatorSubtraction:
-		re, _ := n1.r.binaryOp(op, n2.r)
-		im, _ := n1.i.binaryOp(op, n2.i)
+		re, err := n1.r.binaryOp(op, n2.r)
+		if err != nil {
+			return nil, err
+		}
+		im, err := n1.i.binaryOp(op, n2.i)
+		if err != nil {
+			return nil, err
+		}
 		return newComplexConst(re, im), nil
 	case ast.OperatorMultiplication:
-		ac, _ := n1.r.binaryOp(op, n2.r)
-		bd, _ := n1.i.binaryOp(op, n2.i)
-		bc, _ := n1.i.binaryOp(op, n2.r)
-		ad, _ := n1.r.binaryOp(op, n2.i)
-		c := complexConst{}
-		c.r, _ = ac.binaryOp(ast.OperatorSubtraction, bd)
-		c.i, _ = bc.binaryOp(ast.OperatorAddition, ad)
-		return c, nil
+		// (ac-bd) + i(bc+ad)
+		re, err := sumOfProducts(n1.r, n2.r, ast.OperatorSubtraction, n1.i, n2.i)
+		if err != nil {
+			return nil, err
+		}
+		im, err := sumOfProducts(n1.i, n2.r, ast.OperatorAddition, n1.r, n2.i)
+		if err != nil {
+			return nil, err
+		}
+		return newComplexConst(re, im), nil
 	case ast.OperatorDivision:
 		if n2.zero() {
 			return nil, errComplexDivisionByZero
 		}
 		// s = cc + dd
-		cc, _ := n2.r.binaryOp(ast.OperatorMultiplication, n2.r)
-		dd, _ := n2.i.binaryOp(ast.OperatorMultiplication, n2.i)
-		s, _ := cc.binaryOp(ast.OperatorAddition, dd)
+		s, err := sumOfProducts(n2.r, n2.r, ast.OperatorAddition, n2.i, n2.i)
+		if err != nil {
+			return nil, err
+		}
 		if s.zero() {
 			return nil, errComplexDivisionByZero
 		}
 		// z = (ac+bd)/s + i(bc-ad)/s
-		ac, _ := n1.r.binaryOp(ast.OperatorMultiplication, n2.r)
-		bd, _ := n1.i.binaryOp(ast.OperatorMultiplication, n2.i)
-		bc, _ := n1.i.binaryOp(ast.OperatorMultiplication, n2.r)
-		ad, _ := n1.r.binaryOp(ast.OperatorMultiplication, n2.i)
-		re, _ := ac.binaryOp(ast.OperatorAddition, bd)
-		im, _ := bc.binaryOp(ast.OperatorSubtraction, ad)
+		re, err := sumOfProducts(n1.r, n2.r, ast.OperatorAddition, n1.i, n2.i)
+		if err != nil {
+			return nil, err
+		}
+		im, err := sumOfProducts(n1.i, n2.r, ast.OperatorSubtraction, n1.r, n2.i)
+		if err != nil {
+			return nil, err
+		}
 		// The parts are divided as rationals: an integer s would truncate them.
 		switch s.(type) {
 		case int64Const, intConst:
 			s, _ = toSameConstImpl(s, newRatConst(1, 1))
 		}
-		c := complexConst{}
-		c.r, _ = re.binaryOp(ast.OperatorDivision, s)
-		c.i, _ = im.binaryOp(ast.OperatorDivision, s)
-		return c, nil
+		if re, err = re.binaryOp(ast.OperatorDivision, s); err != nil {
+			return nil, err
+		}
+		if im, err = im.binaryOp(ast.OperatorDivision, s); err != nil {
+			return nil, err
+		}
+		return newComplexConst(re, im), nil
 	}
 	return nil, errInvalidOperation
+}
+
+// sumOfProducts returns a*b op c*d, where op is the addition or the
+// subtraction, or the error of the first operation that fails.
+func sumOfProducts(a, b constant, op ast.OperatorType, c, d constant) (constant, error) {
+	ab, err := a.binaryOp(ast.OperatorMultiplication, b)
+	if err != nil {
+		return nil, err
+	}
+	cd, err := c.binaryOp(ast.OperatorMultiplication, d)
+	if err != nil {
+		return nil, err
+	}
+	return ab.binaryOp(op, cd)
 }
 
 func (c1 complexConst) representedBy(typ reflect.Type) (constant, error) {
